@@ -342,3 +342,52 @@ contract(
         "len(self.indices) == len(self.samples)", "self.populated",
     ],
 )
+
+# ---- FlowProposal.convert_to_samples: prior filled in before use ----------------
+XP_ARR = "Struct(xp:Sort(X),logP:Real,logL:Real,it:Int)"
+shape("ConvModel", {"names": "PyConst(['x'])"}, methods={
+    "batch_evaluate_log_prior": Contract(
+        "<abstract>", "ConvModel.batch_evaluate_log_prior",
+        params={"x": LP_ARR}, trusted=True, trusted_reason="C10",
+        returns="Seq(Real)",
+        ensures=["len(result) == len(x)",
+                 "forall(i, 0, len(x), result[i] == LPr(x[i]['x']))"]),
+})
+shape("FlowConvert", {
+    "use_x_prime_prior": "Bool", "_plot_pool": "Bool",
+    "model": "Obj(ConvModel)", "training_data_prime": "Any",
+    "output": "Any", "populated_count": "Int",
+}, cls="FlowProposal", methods={
+    "inverse_rescale": Contract(
+        "<abstract>", "FlowProposal.inverse_rescale",
+        params={"x_prime": XP_ARR}, trusted=True,
+        trusted_reason="primed -> physical space (abstract map Ri, C08); "
+        "the non-sampling fields of the result hold their defaults",
+        returns=f"Tuple({LP_ARR},Seq(Real))",
+        ensures=["len(result[0]) == len(x_prime)",
+                 "forall(i, 0, len(x_prime), "
+                 "result[0][i]['x'] == Ri(x_prime[i]['xp']))"]),
+})
+CONV_ENS = ["len(result) == len(x)",
+            # every pool row leaves with the model's log-prior at its point,
+            # whichever space the pool was drawn in
+            "forall(i, 0, len(x), result[i]['logP'] == LPr(result[i]['x']))"]
+contract(
+    PF, "FlowProposal.convert_to_samples", props=["C09", "C01"],
+    self_shape="FlowConvert",
+    params={"x": LP_ARR, "plot": "Bool"},
+    requires=["not self.use_x_prime_prior"],
+    opaque_callees=["plot_1d_comparison"],
+    returns=LP_ARR,
+    ensures=CONV_ENS + ["forall(i, 0, len(x), result[i]['x'] == x[i]['x'])"],
+)
+contract(
+    PF, "FlowProposal.convert_to_samples", variant_name="x-prime",
+    props=["C09", "C01"], self_shape="FlowConvert",
+    params={"x": XP_ARR, "plot": "Bool"},
+    requires=["self.use_x_prime_prior"],
+    opaque_callees=["plot_1d_comparison"],
+    returns=LP_ARR,
+    ensures=CONV_ENS + ["forall(i, 0, len(x), "
+                        "result[i]['x'] == Ri(x[i]['xp']))"],
+)
